@@ -9,6 +9,8 @@ from ..rules import decide_states, pure_params
 ID = "C20"
 ANCHORS = 'design.greedy_substitution,design._fast_tile_substitute'.split(",")
 MIN_INSTANCES = 12
+# rule families whose findings in this module are derived by an engine (not by comparing spellings): exempt from the rewrite gate
+SEMANTIC_RULES = {"R-PURE", "R-WIN"}
 EXPLANATION = (
     "R-WIN: the number of tiled candidate sequences equals the number of start positions ersatz.substitute accepts "
     "(L - len(motif) + 1, taken from substitute's own guard 0 <= start <= L - m), and in the numba kernel tile i writes columns "
